@@ -806,8 +806,96 @@ def rule_types4(ctx):
     return obs
 
 
+
+def _depr_table_by_terms(ctx):
+    """the allow / warn / deny table read off the *grammar*: for each (deprecated?, strategy) cell, is a named response
+    field emitted, and does it carry #[deprecated]?  Decided by evaluating the presence conditions of the field
+    productions and of their `deprecated` attributes, whatever functions the generator is split into."""
+    from .rules_gen import role_of, _string_of_ident
+
+    class DQ(Q.QEval):
+        def pat_matches(self, pat, v):
+            if pat[0] == 'ctor' and '::DeprecationStrategy::' in pat[1]:
+                return v == pat[1].split('::')[-1]
+            if pat[0] == 'ctor' and pat[1].endswith('::Some') and v == 'SOME':
+                return True
+            return Q.QEval.pat_matches(self, pat, v)
+
+    def relevant(t):
+        fs = TM.fields_in(t)
+        return any(x.endswith('.deprecation') or 'deprecation_strategy' in x for x in fs)
+
+    res = {}
+    nfields = 0
+    for dep in ('None', 'Some'):
+        for strat in ('Allow', 'Warn', 'Deny'):
+            def atoms(t, dep=dep, strat=strat):
+                if t[0] == 'tuple':
+                    return None
+                fs = TM.fields_in(t)
+                if any('deprecation_strategy' in f for f in fs):
+                    return strat
+                if any(f.endswith('.deprecation') for f in fs):
+                    return Q.NONE if dep == 'None' else 'SOME'
+                return None
+            qe = DQ(ctx.pv, [], atoms)
+
+            def holds(conds):
+                for c in conds:
+                    if c[1] is None or c[1][0] == 'abs' or not relevant(c[1]):
+                        continue
+                    if c[0] == 'match':
+                        if not qe.pat_matches(c[2], qe.ev(c[1])):
+                            return False
+                    elif c[0] == 'if':
+                        if qe.ev(c[1]) is not c[2]:
+                            return False
+                return True
+            present = attr = False
+            for it in ctx.all_items():
+                if it.kind != 'struct':
+                    continue
+                for f in it.fields:
+                    if f.name['t'] != 'leaf' or role_of({o for o, _ in TM.paths(_string_of_ident(f.name))}) != 'response-field':
+                        continue
+                    nfields += 1
+                    if holds(f.conds):
+                        present = True
+                        for a in f.attrs:
+                            if a.path == 'deprecated' and holds(a.rel(f.conds)):
+                                attr = True
+            res[(dep, strat)] = 'omit' if not present else ('attr' if attr else 'none')
+    return res, nfields
+
 @rule('DEPR-TABLE')
 def rule_depr_table(ctx):
+    obs = []
+    # primary: the table read off the grammar by evaluating presence conditions (independent of how the generator is
+    # split into functions); the shape-based reading below is only the fallback when a condition cannot be evaluated
+    want_t = {('None', 'Allow'): 'none', ('None', 'Warn'): 'none', ('None', 'Deny'): 'none', ('Some', 'Allow'): 'none',
+              ('Some', 'Warn'): 'attr', ('Some', 'Deny'): 'omit'}
+    try:
+        tt, nf_ = _depr_table_by_terms(ctx)
+    except Q.Undecided:
+        tt, nf_ = None, 0
+    term_diffs = None
+    if tt is not None and nf_ > 0:
+        term_diffs = ['%s/%s: %s (expected %s)' % (k[0], k[1], tt.get(k), v) for k, v in want_t.items() if tt.get(k) != v]
+        if not term_diffs:
+            return [ok('DEPR-TABLE', 'response-fields/table', 'evaluated on the grammar: not deprecated or allow -> plain field; deprecated+warn -> #[deprecated]; deprecated+deny -> field omitted (2x3 cells)', '')]
+    # the grammar evaluation disagrees or is undecidable (e.g. `Some(None)` vs `None` of an Option<Option<_>> helper are not
+    # distinguished by the term language): read the table from the shape of the code; a violation needs both to disagree
+    shape_obs = _depr_table_by_shape(ctx)
+    if shape_obs and all(o.status == 'ok' for o in shape_obs):
+        return shape_obs
+    if term_diffs and any(o.status == 'violated' for o in shape_obs):
+        return [bad('DEPR-TABLE', 'response-fields/table', '; '.join(term_diffs), '', 'a strategy does something else than documented (or touches non-deprecated fields)')]
+    if term_diffs:
+        return [undecided('DEPR-TABLE', 'response-fields/table', 'the grammar reading gives %s but the code shape is not the recognised (deprecation, strategy) match: not decided' % '; '.join(term_diffs), '')]
+    return shape_obs
+
+
+def _depr_table_by_shape(ctx):
     obs = []
     fns = [fn for fn in ctx.crate('codegen').all_fns() if not fn.from_macro and
            any(n['k'] == 'macro' and 'deprecated' in n['text'] and n['name'].split('::')[-1] == 'quote' for n in walk(fn.body))]
@@ -825,6 +913,15 @@ def rule_depr_table(ctx):
     # scrutinee origins
     dt = ctx.pv.eval(fn, comps[d_idx], H.sym_env(fn), 0)
     stt = ctx.pv.eval(fn, comps[s_idx], H.sym_env(fn), 0)
+    if 'GraphQLClientCodegenOptions.deprecation_strategy' not in TM.fields_in(stt):
+        # a helper that is handed the strategy: look at what its callers pass
+        stt = ctx.pv.eval(fn, comps[s_idx], {}, 0)
+    # "omit the field": `return None` from the rendering fn, or the outer None of an Option<Option<..>> helper whose call
+    # site propagates it with `?`
+    helper_omit = False
+    if fn.d.get('output', '').replace(' ', '').startswith('std::option::Option<std::option::Option<'):
+        sites = ctx.pv.call_sites(fn)
+        helper_omit = bool(sites) and all(H.consumption(cf_, cn_)[0] == 'propagated' for cf_, cn_ in sites)
     if 'GraphQLClientCodegenOptions.deprecation_strategy' not in TM.fields_in(stt):
         obs.append(bad('DEPR-TABLE', inst + '/strategy-origin', 'strategy is not options.deprecation_strategy()', m.get('sp', ''), 'configured strategy ignored'))
     table = {}
@@ -855,7 +952,11 @@ def rule_depr_table(ctx):
                 body = a['body']
                 eff = 'none'
                 rets = [n for n in walk(body) if n['k'] == 'ret']
-                if rets:
+                bv = body
+                while bv.get('k') in ('wrap', 'block') and not bv.get('stmts'):
+                    bv = bv.get('e') or bv.get('expr') or {}
+                outer_none = bv.get('k') == 'path' and bv.get('res', {}).get('path', '').endswith('::None')
+                if rets or (helper_omit and outer_none):
                     eff = 'omit'
                 elif any(n['k'] == 'macro' and 'deprecated' in n['text'] for n in walk(body)):
                     note = any(n['k'] == 'macro' and 'note' in n['text'] for n in walk(body))
